@@ -232,14 +232,14 @@ func vkBudgets(s *vkSnap, thorough bool) []vkBudgetKind {
 }
 
 // group explores one (topology, qname-minimisation, ipv6) cell over modes and budgets.
-func (w *vkWorld) group(tp vkTopo, qmin int, v6 bool) {
+func (w *vkWorld) group(tp vkTopo, qmin int, v6 bool, pin int) {
 	c := w.c
 	client := vkClient{OPT: true, DO: true}
 	base := h_rpipe.Config{QMin: qmin, IPv6: v6}
 	mk := func(mode string, b h_rpipe.Budget, kind ...string) vkCase {
 		cfg := base
 		cfg.Mode, cfg.Budget = mode, b
-		cs := vkCase{Topo: tp.ID, Cfg: cfg, Client: client}
+		cs := vkCase{Topo: tp.ID, Cfg: cfg, Client: client, Pin: pin}
 		if len(kind) > 0 {
 			cs.Kind = kind[0]
 		}
@@ -369,6 +369,7 @@ func TestVerifC12Topo(t *testing.T) {
 		tp   vkTopo
 		qmin int
 		v6   bool
+		pin  int
 	}
 	var cells []cell
 	for _, tp := range w.g.topos {
@@ -376,10 +377,13 @@ func TestVerifC12Topo(t *testing.T) {
 			continue
 		}
 		for _, qmin := range []int{0, 5} {
-			cells = append(cells, cell{tp, qmin, false})
+			cells = append(cells, cell{tp, qmin, false, 0})
+		}
+		if tp.Multi && c.Thorough() {
+			cells = append(cells, cell{tp, 0, false, 1})
 		}
 		if tp.V6 && (c.Thorough() || tp.Family != "glueless" || strings.HasPrefix(tp.ID, "glueless/gk2") || strings.HasPrefix(tp.ID, "glueless/gk1")) {
-			cells = append(cells, cell{tp, 0, true})
+			cells = append(cells, cell{tp, 0, true, 0})
 		}
 	}
 	capped := false
@@ -391,7 +395,7 @@ func TestVerifC12Topo(t *testing.T) {
 			capped = true
 			break
 		}
-		w.group(cl.tp, cl.qmin, cl.v6)
+		w.group(cl.tp, cl.qmin, cl.v6, cl.pin)
 		c.Add("cells", 1)
 		if c.NumViolations() > 4 {
 			break // enough counterexamples from this shard
